@@ -41,6 +41,32 @@ pub fn corpus() -> Vec<(String, Case)> {
             },
         ));
     }
+    // the same library state seen under other server clocks and configurations: requests at the very edges of the
+    // window of one clock, and valid requests validated under clocks 10 minutes apart (a validation must not
+    // learn anything about "the time" or "the configuration" from another one)
+    for (name, server_off, req_off) in [
+        ("clock:old-edge@T", 0i64, -870i64),
+        ("clock:new-edge@T", 0, 870),
+        ("clock:valid@T+10m", 600, 600),
+        ("clock:valid@T-10m", -600, -600),
+        ("clock:old-edge@T-10m", -600, -600 - 899),
+        ("clock:expired@T+10m", 600, -301),
+    ] {
+        let mut p = e2e::base_plan(Carrier::Header);
+        p.instant = refmodel::Instant::new(now.secs + req_off, 0);
+        p.date_text = p.instant.compact();
+        e2e::rekey(&mut p, e2e::SECRET, "us-east-1", "service");
+        let cfg = Cfg::basic(refmodel::Instant::new(now.secs + server_off, 0));
+        out.push((name.to_string(), Case { wire: WireReq::from_wire(&build(&p).wire), cfg, prov: ProvSpec::standard() }));
+    }
+    for (name, region, service) in [("cfg:eu-west-1/service", "eu-west-1", "service"), ("cfg:us-east-1/beta", "us-east-1", "beta")] {
+        let mut p = e2e::base_plan(Carrier::Query);
+        e2e::rekey(&mut p, e2e::SECRET, region, service);
+        let mut cfg = Cfg::basic(now);
+        cfg.region = region.into();
+        cfg.service = service.into();
+        out.push((name.to_string(), Case { wire: WireReq::from_wire(&build(&p).wire), cfg, prov: ProvSpec::standard() }));
+    }
     // refusals that stop half-way through an element (whatever partial work they did must leave no trace)
     for (name, path, query, body) in [
         ("poison:query-value-tail", "/", Some("Action=ListUsers%zz&b=2"), None),
@@ -741,7 +767,7 @@ pub fn run(ctx: &Ctx) -> Report {
     Report {
         stats: st,
         rule: format!(
-            "corpus of {} requests (one per stage of the documented order on each carrier, valid, wrong signature, folded form, S3 + token); outcome = Ok payload digest (returned parts, body, principal) or error kind; fresh-state outcome of each element = its outcome when validated first in a fresh process. (1) every sequence of 1..{} validations in one process: each step equals its fresh-state outcome; (2) joint iteration orders of the crate's query and header maps exhausted (projection on <= 4 keys each) with identical canonical bytes and outcome, incl. the prefix rule whose error is raised inside a map iteration; (3) one fresh process per corpus element validated first{}; (4a) real threads under a controlled scheduler whose scheduling points are the crate's own log records and every provider event: 6 two-thread pairs ({}), 3 threads at preemption bound {}{}; (4b) 2-3 validation futures multiplexed on one thread with every order of polls (pending body / readiness / key future); built-in canaries (shared scratch buffer) must be caught by 4a and 4b on every run; plus a free-running barrier pass (sampling, supplementary). states = distinct outcomes / outcome vectors",
+            "corpus of {} requests (one per stage of the documented order on each carrier, valid, wrong signature, with and without a session token; folded form, S3 + token, same credential under three tokens, five refusals that stop half-way through an element, six requests under server clocks 10 minutes apart incl. the edges of each window, two other server configurations); outcome = Ok payload digest (returned parts, body, principal) or error kind; fresh-state outcome of each element = its outcome when validated first in a fresh process. (1) every sequence of 1..{} validations in one process: each step equals its fresh-state outcome; (2) joint iteration orders of the crate's query and header maps exhausted (projection on <= 4 keys each) with identical canonical bytes and outcome, incl. the prefix rule whose error is raised inside a map iteration; (3) one fresh process per corpus element validated first{}; (4a) real threads under a controlled scheduler whose scheduling points are the crate's own log records and every provider event: 6 two-thread pairs ({}), 3 threads at preemption bound {}{}; (4b) 2-3 validation futures multiplexed on one thread with every order of polls (pending body / readiness / key future); built-in canaries (shared scratch buffer) must be caught by 4a and 4b on every run; plus a free-running barrier pass (sampling, supplementary). states = distinct outcomes / outcome vectors",
             n, l, if thorough { " (4 rounds)" } else { "" }, if thorough { "all interleavings" } else { "all schedules with <= 3 preemptions" }, if thorough { 3 } else { 2 }, if thorough { ", 4 threads at bound 2" } else { "" }
         ),
         bounds: json!({"corpus": n, "history_length": l}),
